@@ -5,6 +5,7 @@
 (*   get         a lookup of t and the status handed to the coordinator                *)
 (*   probe-start a probe request for t arrived at the target (pid identifies it)        *)
 (*   probe-end   that probe completed (ok: it succeeded)                                *)
+(*   info        the job's scrape info became unavailable / available (ok)              *)
 (* "Per target" is read per discovery of the target (see Explore.tla): the epoch of t    *)
 (* at position i is the position of the update that (re)discovered it.                   *)
 EXTENDS Integers, Sequences, FiniteSets
@@ -23,6 +24,11 @@ Starts(E, t) == {i \in Idx(E) : E[i].ev = "probe-start" /\ E[i].t = t}
 EndOf(E, i)  == LET S == {j \in Idx(E) : E[j].ev = "probe-end" /\ E[j].pid = E[i].pid} IN IF S = {} THEN Len(E) + 1 ELSE CHOOSE j \in S : TRUE
 Succ(E, t)   == {j \in Idx(E) : E[j].ev = "probe-end" /\ E[j].t = t /\ E[j].ok}
 StartOf(E, j) == CHOOSE i \in Idx(E) : E[i].ev = "probe-start" /\ E[i].pid = E[j].pid
+\* for how long (ms, up to the end of the history) the job's scrape info has been available without interruption
+InfoEvents(E) == {i \in Idx(E) : E[i].ev = "info"}
+InfoOnFor(E) == IF InfoEvents(E) = {} THEN E[Len(E)].ms
+                ELSE LET k == CHOOSE i \in InfoEvents(E) : \A m \in InfoEvents(E) : m <= i
+                     IN IF E[k].ok THEN E[Len(E)].ms - E[k].ms ELSE -1
 Ts(E) == {E[i].t : i \in {i \in Idx(E) : E[i].ev \in {"probe-start", "get"}}}
 
 \* expected counts of a successful probe of t are fixed by the harness payloads
@@ -53,10 +59,17 @@ C20(E, kept, total, deadlineMs) ==
       {<<t, g>> \in Ts(E) \X Idx(E) : E[g].ev = "get" /\ E[g].t = t /\ E[g].found /\
            (\E j \in Succ(E, t) : j < g /\ Epoch(E, StartOf(E, j), t) = Epoch(E, g, t)) /\
            (E[g].series # kept[t] \/ E[g].total # total[t] \/ E[g].health # "up")}}
+  \* every discovered target is probed once it is asked for (judged when the job's scrape info has been
+  \* available, and the lookup past, for at least the deadline)
+  \cup {[f |-> "looked-up-target-never-probed", t |-> t, at |-> g] : <<t, g>> \in
+      {<<t, g>> \in Ts(E) \X Idx(E) : E[g].ev = "get" /\ E[g].t = t /\ E[g].found /\
+           Epoch(E, g, t) # 0 /\ Epoch(E, Len(E), t) = Epoch(E, g, t) /\
+           InfoOnFor(E) >= deadlineMs /\ E[Len(E)].ms - E[g].ms >= deadlineMs /\
+           ~\E i \in Starts(E, t) : Epoch(E, i, t) = Epoch(E, g, t)}}
   \* a failed probe is retried while the target stays discovered (judged only when the history is long enough)
   \cup {[f |-> "failed-probe-not-retried", t |-> t, at |-> j] : <<t, j>> \in
       {<<t, j>> \in Ts(E) \X Idx(E) : E[j].ev = "probe-end" /\ E[j].t = t /\ ~E[j].ok /\
            Epoch(E, StartOf(E, j), t) # 0 /\ Epoch(E, Len(E), t) = Epoch(E, StartOf(E, j), t) /\
-           E[Len(E)].ms - E[j].ms >= deadlineMs /\
+           E[Len(E)].ms - E[j].ms >= deadlineMs /\ InfoOnFor(E) >= deadlineMs /\
            ~\E i \in Starts(E, t) : i > j}}
 =============================================================================
